@@ -42,6 +42,9 @@ def popLive : List Ev → Option (Ev × List Ev)
   | [] => none
   | x :: xs => if x.cancelled then popLive xs else some (x, xs)
 
+/-- the cancelled events `pop_event` throws away on its way to the first live one -/
+def skipped (l : List Ev) : List Ev := l.takeWhile (·.cancelled)
+
 inductive Cmd where
   | schedAbs (t : Int) (prio : Nat) (act : Nat)
   | schedRel (d : Int) (prio : Nat) (act : Nat)
@@ -53,9 +56,21 @@ inductive Kind where | abm | devs
 deriving Repr, DecidableEq
 
 inductive LogEntry where
-  | user (tag : Nat) (clock : Int)
-  | step (clock : Int)
+  | user (id : Nat) (tag : Nat) (clock : Int)
+  | step (id : Nat) (clock : Int)
 deriving Repr, DecidableEq
+
+def LogEntry.id : LogEntry → Nat
+  | .user i _ _ => i
+  | .step i _ => i
+
+def LogEntry.clock : LogEntry → Int
+  | .user _ _ c => c
+  | .step _ c => c
+
+def LogEntry.isStep : LogEntry → Bool
+  | .user _ _ _ => false
+  | .step _ _ => true
 
 inductive Err where | past | unit
 deriving Repr, DecidableEq
@@ -68,11 +83,12 @@ structure Sim where
   nextTag : Nat
   steps : Nat                    -- model.steps
   log : List LogEntry            -- executions, oldest first
+  gone : List Nat                -- ghost: ids popped without being executed (cancelled or dead)
   prog : Nat → List Cmd          -- what each user callable does
   stepProg : List Cmd            -- what the user's step body does
 
 def init (k : Kind) (prog : Nat → List Cmd) (stepProg : List Cmd) : Sim :=
-  { kind := k, now := 0, pending := [], nextId := 0, nextTag := 0, steps := 0, log := [],
+  { kind := k, now := 0, pending := [], nextId := 0, nextTag := 0, steps := 0, log := [], gone := [],
     prog := prog, stepProg := stepProg }
 
 /-- `check_time_unit` -/
@@ -125,40 +141,44 @@ def doCmd (s : Sim) : Cmd → Sim
   | .cancel k => cancelTag s k
   | .drop k => dropTag s k
 
+/-- ABM simulator: keep `model.step` scheduled for the next tick; DEVS: nothing -/
+def rearm (s : Sim) : Sim :=
+  match s.kind with
+  | .abm => pushStep s
+  | .devs => s
+
 /-- execution of a popped live event `e`; the clock has already been set to `e.time`.
     For the ABM simulator the step event is re-scheduled *before* it is executed. -/
 def exec (s : Sim) (e : Ev) : Sim :=
-  if e.dead then s
+  if e.dead then { s with gone := s.gone ++ [e.id] }
   else if e.isStep then
-    let s1 := match s.kind with | .abm => pushStep s | .devs => s
-    s.stepProg.foldl doCmd { s1 with steps := s1.steps + 1, log := s1.log ++ [.step s1.now] }
+    s.stepProg.foldl doCmd { rearm s with steps := s.steps + 1, log := s.log ++ [.step e.id s.now] }
   else
-    (s.prog e.act).foldl doCmd { s with log := s.log ++ [.user e.tag s.now] }
+    (s.prog e.act).foldl doCmd { s with log := s.log ++ [.user e.id e.tag s.now] }
 
 /-- `run_until` with explicit fuel (`none` = fuel exhausted, the program does not terminate) -/
 def runUntil : Nat → Sim → Int → Option Sim
   | 0, _, _ => none
   | f+1, s, T =>
     match popLive s.pending with
-    | none => some { s with now := T, pending := [] }
+    | none => some { s with now := T, pending := [], gone := s.gone ++ (skipped s.pending).map (·.id) }
     | some (e, rest) =>
-      if e.time ≤ T then runUntil f (exec { s with now := e.time, pending := rest } e) T
-      else some { s with now := T, pending := insert e rest }
+      let g := s.gone ++ (skipped s.pending).map (·.id)
+      if e.time ≤ T then runUntil f (exec { s with now := e.time, pending := rest, gone := g } e) T
+      else some { s with now := T, pending := insert e rest, gone := g }
 
 /-- `run_next_event` (ABM: with the re-scheduling of the D6 repair, which is in `exec`) -/
 def runNext (s : Sim) : Sim :=
   match popLive s.pending with
-  | none => { s with pending := [] }
-  | some (e, rest) => exec { s with now := e.time, pending := rest } e
+  | none => { s with pending := [], gone := s.gone ++ (skipped s.pending).map (·.id) }
+  | some (e, rest) =>
+    exec { s with now := e.time, pending := rest, gone := s.gone ++ (skipped s.pending).map (·.id) } e
 
 /-- `run_for` -/
 def runFor (f : Nat) (s : Sim) (d : Int) : Option Sim := runUntil f s (s.now + d)
 
 /-- `ABMSimulator.setup` / `DEVSimulator.setup` -/
-def setup (s : Sim) : Sim :=
-  match s.kind with
-  | .abm => pushStep s
-  | .devs => s
+def setup (s : Sim) : Sim := rearm s
 
 /-- `peak_ahead n` (with the D1 repair: execution order) -/
 def peek (s : Sim) (n : Nat) : List Ev := (s.pending.filter Ev.live).take n
